@@ -169,7 +169,7 @@ func (t *taskState) reuseDecode(i int, po *prepOp, in []byte) {
 		}
 	}
 	if po.mergeOK {
-		world.Merge(model.Elem(), po.srcVal, t.x.prep.sc.Insts[po.op.Inst])
+		world.Merge(model.Elem(), po.srcVal, po.expVal, t.x.prep.sc.Insts[po.op.Inst])
 		if ok, path := world.Equal(tgt.Elem(), model.Elem()); !ok {
 			t.fail(i, po, "leak", "re-used target differs from the merge rules' result at "+path)
 		} else {
